@@ -8,10 +8,11 @@ META = {
     "text": "TLC checks the transcription of range_diff (L2) against the property's decision table (L1) on every ordered pair of "
             "window maps in the bounded space; the same space plus seeded random larger maps is run through the real "
             "ReplicationUpdateVector::range_diff and every real answer is judged by the TLA+ decision table.",
-    "note": "exhaustive within 2 servers x time 0..3 and 3 servers x 0..1 (quick) / 0..2 (thorough); beyond that sampled; "
+    "note": "design level: proved by TLAPS for window maps of any size over any naturals (KRangeProof, C10Unbounded); "
+            "implementation level: exhaustive within 2 servers x time 0..3 and 3 servers x 0..1 (quick) / 0..2 (thorough); beyond that sampled; "
             "trusted: TLC, the H1 accessor that converts maps, whole-second timestamps",
     "design_ref": "DESIGN.md section 6, C10",
-    "technique": "TLA+ operator spec (KRange) exhaustively model-checked by TLC; exhaustive replay of the input space through the real function, validated by TLC trace spec",
+    "technique": "TLA+ operator spec (KRange) exhaustively model-checked by TLC and proved unboundedly by TLAPS; exhaustive replay of the input space through the real function, validated by TLC trace spec",
 }
 
 def run(tier, replay):
@@ -25,6 +26,9 @@ def run(tier, replay):
         mc = lib.tlc("KRangeMC", cfg=cfg, pid=PID, workers=8, timeout=1500)
         lib.tlc_must_pass(mc, f"{cfg}: L2 transcription vs L1 decision table")
         states += mc["distinct"]; trans += mc["generated"]
+    # (1b) unbounded: the same statement for window maps over ANY set of servers and ANY natural timestamps, proved by
+    # TLAPS from the same KRange module (KRangeProof.tla)
+    proof = prove(wd)
     # (2) the same input spaces through the REAL range_diff, judged by L1 in TLC
     obs = f"{wd}/obs.ndjson"
     if replay:
@@ -48,6 +52,7 @@ def run(tier, replay):
         "traces_validated_against_impl": len(lines),
         "samples": lib.sample(lines),
         "exhaustive": True,
+        "unbounded_proof": proof,
         "l2_drift": len(tv["drift"]),
         "observed_status_counts": statuses,
         "trace_states": tv["distinct"],
@@ -56,6 +61,30 @@ def run(tier, replay):
     }
     R.assumptions = ["timestamps are whole seconds in the replayed space; server ids map s1..sN to fixed uuids"]
     R.finish()
+
+def prove(wd):
+    """tlapm on KRangeProof (EXTENDS the checked KRange module itself); a failed obligation is a defect of the
+    specification library, not of kanidm: tool error."""
+    import os, re, shutil, subprocess
+    pd = f"{wd}/proof"
+    shutil.rmtree(pd, ignore_errors=True)
+    os.makedirs(pd)
+    for f in ("KRange.tla", "KRangeProof.tla"):
+        shutil.copy(f"{lib.ROOT}/spec/{f}", pd)
+    try:
+        p = subprocess.run(["tlapm", "--threads", "4", "KRangeProof.tla"], cwd=pd, stdout=subprocess.PIPE,
+                           stderr=subprocess.STDOUT, text=True, timeout=1200)
+    except subprocess.TimeoutExpired:
+        lib.tool_error("tlapm KRangeProof timed out")
+    open(f"{wd}/tlapm_KRangeProof.log", "w").write(p.stdout)
+    m = re.search(r"All (\d+) obligations proved", p.stdout)
+    if p.returncode != 0 or not m:
+        print(p.stdout[-1500:])
+        lib.tool_error(f"tlapm did not prove KRangeProof (log {wd}/tlapm_KRangeProof.log)")
+    shutil.rmtree(pd, ignore_errors=True)
+    return {"prover": "tlapm (TLAPS 1.6.0-pre; SMT/Zenon/Isabelle back ends)", "module": "KRangeProof",
+            "theorem": "C10Unbounded: \\A c, s : WF(c) /\\ WF(s) => L2MeetsL1(c, s)", "obligations_proved": int(m.group(1))}
+
 
 def replay_file(path, wd):
     # a replay file holds observed lines; re-observe the same inputs on the current tree
